@@ -1,5 +1,6 @@
 import Cppcms.C01.ScgiProofs
 import Cppcms.C01.FcgiProofs
+import Cppcms.C01.HttpProofs3
 /-!
 # C01 — property theorems
 
@@ -36,6 +37,36 @@ theorem fcgi_buffer_eq_stream (lim : Limits) (conc : Bytes) (segs : Segs) :
 theorem segmentation_independent_fcgi (lim : Limits) (conc : Bytes) (segs₁ segs₂ : Segs)
     (h : segs₁.flatten = segs₂.flatten) : fcgiRun lim conc segs₁ = fcgiRun lim conc segs₂ := by
   rw [fcgiRun_eq_flat, fcgiRun_eq_flat, h]
+
+/-- HTTP: whenever every request's header section ends within the 16 KiB cap (`httpFlatConn … = some outs`;
+well-formed or not), the connection over the read-ahead buffer (`input_body_`/`input_body_ptr_`, the
+generated `parser::step()` with `getc`/`ungetc`, `total_read_` accounting, body drained from the buffer
+exactly once, unread bytes kept for the next keep-alive request) computes the stream-level result. -/
+theorem http_buffer_eq_stream (lim : Limits) (hb : 0 < lim.bufSize) (cfg : HttpCfg) (hints : List Bool) (segs : Segs)
+    (outs : List Outcome) (h : httpFlatConn cfg lim (segs.flatten.length + 2) hints segs.flatten = some outs) :
+    httpRun lim cfg hints segs = outs :=
+  httpRun_eq_flat cfg lim hb hints segs outs h
+
+/-- HTTP: segmentation independence for every byte stream whose header sections fit the cap. -/
+theorem segmentation_independent_http (lim : Limits) (hb : 0 < lim.bufSize) (cfg : HttpCfg) (hints : List Bool)
+    (segs₁ segs₂ : Segs) (h : segs₁.flatten = segs₂.flatten)
+    (hcap : (httpFlatConn cfg lim (segs₁.flatten.length + 2) hints segs₁.flatten).isSome) :
+    httpRun lim cfg hints segs₁ = httpRun lim cfg hints segs₂ := by
+  cases hf : httpFlatConn cfg lim (segs₁.flatten.length + 2) hints segs₁.flatten with
+  | none => rw [hf] at hcap; simp at hcap
+  | some outs =>
+    rw [httpRun_eq_flat cfg lim hb hints segs₁ outs hf]
+    rw [h] at hf
+    rw [httpRun_eq_flat cfg lim hb hints segs₂ outs hf]
+
+/-- The unrestricted statement for HTTP.  It is **false** of the code: beyond 16 KiB of header bytes
+`some_headers_data_read` answers "protocol violation" or accepts, depending on where a read ends
+(`total_read_` is only compared at `more_data`).  The check replays a witness pair on model and code
+(`gen/corpus/C01/capdep_*.case`); no property of C01/C02 is affected (well-formed requests have header
+sections of at most 16 KiB, oversized ones are either answered or closed). -/
+def segmentation_independent_http_unrestricted : Prop :=
+  ∀ (lim : Limits) (cfg : HttpCfg) (hints : List Bool) (segs₁ segs₂ : Segs),
+    segs₁.flatten = segs₂.flatten → httpRun lim cfg hints segs₁ = httpRun lim cfg hints segs₂
 
 /-- non-vacuity: different segmentations of the same stream exist -/
 example : ([[1, 2], [3]] : Segs).flatten = ([[1], [], [2, 3]] : Segs).flatten := by decide
